@@ -309,6 +309,28 @@ fn c04_search(seed: u64) -> Option<(String, String)> {
     None
 }
 
+// ---------------------------------------------------------------- C04: constructors / combinators keep the limits
+fn c04_build_check(seed: u64) -> Result<(), String> {
+    let mut r = Rng(seed | 1);
+    let lab = |r: &mut Rng| -> Vec<u8> { let n = [1u64, 2, 30, 61, 62, 63][r.below(6) as usize]; (0..n).map(|_| b'a' + r.below(26) as u8).collect() };
+    let mut n = Name::root();
+    for _ in 0..r.below(5) { if let Ok(m) = n.prepend_label(&lab(&mut r)[..]) { n = m; } }
+    let mut o = Name::root();
+    for _ in 0..r.below(5) { if let Ok(m) = o.prepend_label(&lab(&mut r)[..]) { o = m; } }
+    let check = |what: &str, x: &Name| -> Result<(), String> {
+        let wire: usize = x.iter().map(|l| l.len() + 1).sum::<usize>() + 1;
+        if wire > 255 { return Err(format!("{what} produced a name of {wire} octets")); }
+        if x.iter().any(|l| l.len() > 63 || l.is_empty()) { return Err(format!("{what} produced a label outside 1..=63")); }
+        Ok(())
+    };
+    check("prepend_label", &n)?;
+    if let Ok(x) = n.clone().append_name(&o) { check("append_name", &x)?; }
+    if let Ok(x) = n.clone().append_domain(&o) { check("append_domain", &x)?; }
+    if let Ok(x) = n.clone().append_label(&lab(&mut r)[..]) { check("append_label", &x)?; }
+    check("into_wildcard", &n.clone().into_wildcard())?;
+    Ok(())
+}
+
 // ---------------------------------------------------------------- C12 / C13 kernels
 fn c12_check(serial: u32) -> Result<(), String> {
     guarded(2000, move || {
@@ -348,6 +370,7 @@ fn main() {
             "c03_trunc" => { let s0 = u64::from_str_radix(&inp[..16], 16).unwrap(); let lim = u16::from_str_radix(&inp[16..20], 16).unwrap(); let mut r = Rng(s0); c03_check(&c03_build(&mut r), lim) }
             "c04_order" => { let (a, b) = dec_labels(&inp); c04_check(&a, &b) }
             "c02_roundtrip" => c02_check(inp.parse().unwrap()),
+            "c04_build" => c04_build_check(inp.parse().unwrap()),
             "c12_serial" => c12_check(inp.parse().unwrap()),
             "c13_tsig" => { let mut p = inp.split(','); c13_check(p.next().unwrap().parse().unwrap(), p.next().unwrap().parse().unwrap()) }
             _ => { eprintln!("unknown oracle"); std::process::exit(2) }
@@ -361,6 +384,7 @@ fn main() {
         "c03_trunc" => c03_search(seed),
         "c04_order" => c04_search(seed),
         "c02_roundtrip" => c02_search(seed),
+        "c04_build" => { let mut r = Rng(seed.wrapping_mul(0x9FB21C651E98DF25) | 1); (0..200000).find_map(|_| { let s = r.next(); c04_build_check(s).err().map(|e| (format!("{s}"), e)) }) }
         "c12_serial" => [0u32, 1, 0x7fff_ffff, 0x8000_0000, u32::MAX - 1, u32::MAX].iter().find_map(|&s| c12_check(s).err().map(|e| (s.to_string(), e))),
         "c13_tsig" => [(1609459200u64, 300u16), (300, 300), (299, 300), (5, 300), (0, 0), (0, 65535), ((1 << 48) - 1, 65535)].iter()
             .find_map(|&(t, f)| c13_check(t, f).err().map(|e| (format!("{t},{f}"), e))),
